@@ -198,8 +198,29 @@ variable {α β : Type}
 @[simp] theorem ok_map {ε γ δ : Type} (a : γ) (f : γ → δ) : (Except.ok a : Except ε γ).map f = .ok (f a) := rfl
 @[simp] theorem ok_fmap {ε γ δ : Type} (a : γ) (f : γ → δ) : (f <$> (Except.ok a : Except ε γ)) = .ok (f a) := rfl
 
-theorem mvdV_triv {mvd : α → α} (h : ∀ x, mvd x = x) (v : V α) : Spec.mvdV mvd v = v := by
-  cases v; simp [Spec.mvdV, h]
+/-- the trait bits of a configuration are sound for the element operations: a defaulted (bitwise) special
+    member of the variant is selected only when every element operation it replaces is the plain copy
+    (`is_trivially_*` of every alternative; `variant_trivially_copy_assignable` asks for both the trivial copy
+    constructor and the trivial copy assignment) -/
+structure TrivOK (c : Cfg) (el : Elem α) : Prop where
+  cc : c.trivCC = true → ∀ s, el.cc s = s
+  mc : c.trivMC = true → ∀ s, el.mc s = (s, s)
+  ca : c.trivCA = true → (∀ d s, el.ca d s = s) ∧ (∀ s, el.cc s = s)
+  ma : c.trivMA = true → (∀ d s, el.ma d s = (s, s)) ∧ (∀ s, el.mc s = (s, s))
+
+/-- plain values: every special member is the bitwise copy (`int`, `float`) -/
+def plainElem : Elem α := ⟨id, fun s => (s, s), fun _ s => s, fun _ s => (s, s)⟩
+
+theorem trivOK_plain (c : Cfg) : TrivOK c (plainElem : Elem α) :=
+  ⟨fun _ _ => rfl, fun _ _ => rfl, fun _ => ⟨fun _ _ => rfl, fun _ => rfl⟩, fun _ => ⟨fun _ _ => rfl, fun _ => rfl⟩⟩
+
+/-- a value with a mark: each special member leaves its own mark (1 copy constructor, 2 move constructor,
+    3 copy assignment, 4 move assignment) and the move forms leave 0 in the source: the kind `q` of the harness -/
+def markElem : Elem (Nat × Nat) :=
+  ⟨fun s => (s.1, 1), fun s => ((s.1, 2), (0, s.2)), fun _ s => (s.1, 3), fun _ s => ((s.1, 4), (0, s.2))⟩
+
+theorem trivOK_mark (n : Nat) : TrivOK ⟨n, false, false, false, false⟩ markElem :=
+  ⟨fun h => (by cases h), fun h => (by cases h), fun h => (by cases h), fun h => (by cases h)⟩
 
 /-- every live object holds one of its alternatives -/
 def WF (c : Cfg) (st : List (V α)) : Prop := ∀ v ∈ st, v.idx < c.n
@@ -217,13 +238,91 @@ theorem wf_set {c : Cfg} {st : List (V α)} (h : WF c st) (k : Nat) (v : V α) (
   · exact h w hw
   · rw [hw]; exact hv
 
-theorem absO_mvdV (mvd : α → α) (v : V α) : Spec.absO (Spec.mvdV mvd v) = (Spec.absO v).map mvd := by
-  cases v with
-  | mk i x => by_cases h : i = 1 <;> simp [Spec.absO, Spec.mvdV, h]
+@[simp] theorem ctorV_idx1 (el : Elem α) (mv : Bool) (s : V α) : (Spec.ctorV el mv s).1.idx = s.idx := rfl
+@[simp] theorem ctorV_idx2 (el : Elem α) (mv : Bool) (s : V α) : (Spec.ctorV el mv s).2.idx = s.idx := rfl
+@[simp] theorem assignV_idx1 (el : Elem α) (fb : α → Bool) (mv : Bool) (d s : V α) :
+    (Spec.assignV el fb mv d s).1.idx = s.idx := by unfold Spec.assignV; split <;> rfl
+@[simp] theorem assignV_idx2 (el : Elem α) (fb : α → Bool) (mv : Bool) (d s : V α) :
+    (Spec.assignV el fb mv d s).2.idx = s.idx := by unfold Spec.assignV; split <;> rfl
 
-theorem absE_mvdV (mvd : α → α) (v : V α) : Spec.absE (Spec.mvdV mvd v) = (Spec.absE v).map mvd := by
-  cases v with
-  | mk i x => by_cases h : i = 0 <;> simp [Spec.absE, Spec.mvdV, Spec.E.map, h]
+theorem absO_ctorV (el : Elem α) (mv : Bool) (s : V α) :
+    (Spec.absO (Spec.ctorV el mv s).1, Spec.absO (Spec.ctorV el mv s).2) = Spec.ctorO el mv (Spec.absO s) := by
+  cases s with
+  | mk i x => by_cases h : i = 1 <;> simp [Spec.absO, Spec.ctorV, Spec.ctorO, h]
+
+theorem absO_assignV (el : Elem α) (mv : Bool) (d s : V α) :
+    (Spec.absO (Spec.assignV el Spec.noFb mv d s).1, Spec.absO (Spec.assignV el Spec.noFb mv d s).2)
+      = Spec.assignO el mv (Spec.absO d) (Spec.absO s) := by
+  cases d with
+  | mk i x =>
+    cases s with
+    | mk j y =>
+      by_cases hi : i = 1 <;> by_cases hj : j = 1 <;> by_cases hij : i = j <;>
+        simp_all [Spec.absO, Spec.assignV, Spec.assignO]
+
+theorem absE_ctorV (el : Elem α) (mv : Bool) (s : V α) :
+    (Spec.absE (Spec.ctorV el mv s).1, Spec.absE (Spec.ctorV el mv s).2) = Spec.ctorE el mv (Spec.absE s) := by
+  cases s with
+  | mk i x => by_cases h : i = 0 <;> simp [Spec.absE, Spec.ctorV, Spec.ctorE, h]
+
+theorem absE_assignV (el : Elem α) (fb : α → Bool) (mv : Bool) (d s : V α) (hd : d.idx < 2) (hs : s.idx < 2) :
+    (Spec.absE (Spec.assignV el fb mv d s).1, Spec.absE (Spec.assignV el fb mv d s).2)
+      = Spec.assignE el fb mv (Spec.absE d) (Spec.absE s) := by
+  cases d with
+  | mk i x =>
+    cases s with
+    | mk j y =>
+      simp only at hd hs
+      have hi : i = 0 ∨ i = 1 := by omega
+      have hj : j = 0 ∨ j = 1 := by omega
+      rcases hi with hi | hi <;> rcases hj with hj | hj <;> subst hi <;> subst hj <;>
+        simp [Spec.absE, Spec.assignV, Spec.assignE]
+
+theorem absO_ctorV1 (el : Elem α) (mv : Bool) (s : V α) :
+    Spec.absO (Spec.ctorV el mv s).1 = (Spec.ctorO el mv (Spec.absO s)).1 := congrArg Prod.fst (absO_ctorV el mv s)
+theorem absO_ctorV2 (el : Elem α) (mv : Bool) (s : V α) :
+    Spec.absO (Spec.ctorV el mv s).2 = (Spec.ctorO el mv (Spec.absO s)).2 := congrArg Prod.snd (absO_ctorV el mv s)
+theorem absO_assignV1 (el : Elem α) (mv : Bool) (d s : V α) :
+    Spec.absO (Spec.assignV el Spec.noFb mv d s).1 = (Spec.assignO el mv (Spec.absO d) (Spec.absO s)).1 :=
+  congrArg Prod.fst (absO_assignV el mv d s)
+theorem absO_assignV2 (el : Elem α) (mv : Bool) (d s : V α) :
+    Spec.absO (Spec.assignV el Spec.noFb mv d s).2 = (Spec.assignO el mv (Spec.absO d) (Spec.absO s)).2 :=
+  congrArg Prod.snd (absO_assignV el mv d s)
+
+theorem absO_swapV1 (el : Elem α) (a b : V α) :
+    Spec.absO (Spec.swapV el a b).1 = (Spec.swapO el (Spec.absO a) (Spec.absO b)).1 := by
+  simp only [Spec.swapV, Spec.swapO, absO_assignV1, absO_ctorV2]
+theorem absO_swapV2 (el : Elem α) (a b : V α) :
+    Spec.absO (Spec.swapV el a b).2 = (Spec.swapO el (Spec.absO a) (Spec.absO b)).2 := by
+  simp only [Spec.swapV, Spec.swapO, absO_assignV1, absO_assignV2, absO_ctorV1, absO_ctorV2]
+theorem absO_swapSelfV (el : Elem α) (a : V α) :
+    Spec.absO (Spec.swapSelfV el a) = Spec.swapSelfO el (Spec.absO a) := by
+  simp only [Spec.swapSelfV, Spec.swapSelfO, absO_assignV1, absO_ctorV1, absO_ctorV2]
+
+theorem absE_ctorV1 (el : Elem α) (mv : Bool) (s : V α) :
+    Spec.absE (Spec.ctorV el mv s).1 = (Spec.ctorE el mv (Spec.absE s)).1 := congrArg Prod.fst (absE_ctorV el mv s)
+theorem absE_ctorV2 (el : Elem α) (mv : Bool) (s : V α) :
+    Spec.absE (Spec.ctorV el mv s).2 = (Spec.ctorE el mv (Spec.absE s)).2 := congrArg Prod.snd (absE_ctorV el mv s)
+theorem absE_assignV1 (el : Elem α) (fb : α → Bool) (mv : Bool) (d s : V α) (hd : d.idx < 2) (hs : s.idx < 2) :
+    Spec.absE (Spec.assignV el fb mv d s).1 = (Spec.assignE el fb mv (Spec.absE d) (Spec.absE s)).1 :=
+  congrArg Prod.fst (absE_assignV el fb mv d s hd hs)
+theorem absE_assignV2 (el : Elem α) (fb : α → Bool) (mv : Bool) (d s : V α) (hd : d.idx < 2) (hs : s.idx < 2) :
+    Spec.absE (Spec.assignV el fb mv d s).2 = (Spec.assignE el fb mv (Spec.absE d) (Spec.absE s)).2 :=
+  congrArg Prod.snd (absE_assignV el fb mv d s hd hs)
+
+theorem absE_swapV1 (el : Elem α) (a b : V α) (ha : a.idx < 2) (hb : b.idx < 2) :
+    Spec.absE (Spec.swapV el a b).1 = (Spec.swapE el (Spec.absE a) (Spec.absE b)).1 := by
+  simp only [Spec.swapV, Spec.swapE]
+  rw [absE_assignV1 _ _ _ _ _ (by simpa using ha) hb, absE_ctorV2]
+theorem absE_swapV2 (el : Elem α) (a b : V α) (ha : a.idx < 2) (hb : b.idx < 2) :
+    Spec.absE (Spec.swapV el a b).2 = (Spec.swapE el (Spec.absE a) (Spec.absE b)).2 := by
+  simp only [Spec.swapV, Spec.swapE]
+  rw [absE_assignV1 _ _ _ _ _ (by simpa using hb) (by simpa using ha),
+    absE_assignV2 _ _ _ _ _ (by simpa using ha) hb, absE_ctorV1, absE_ctorV2]
+theorem absE_swapSelfV (el : Elem α) (a : V α) (ha : a.idx < 2) :
+    Spec.absE (Spec.swapSelfV el a) = Spec.swapSelfE el (Spec.absE a) := by
+  simp only [Spec.swapSelfV, Spec.swapSelfE]
+  rw [absE_assignV1 _ _ _ _ _ (by simpa using ha) (by simpa using ha), absE_ctorV1, absE_ctorV2]
 
 theorem beq1 (n : Nat) : ((n == 1) = true ∧ n = 1) ∨ ((n == 1) = false ∧ ¬ n = 1) := by
   by_cases h : n = 1 <;> simp [h]
